@@ -1,5 +1,5 @@
 (* C02/Proofs.v — facts about the documented update formulas, for all inputs. *)
-From Precond Require Import Base.PyLib Base.QMat C06.Records C06.Ref C06.BlockProofs C02.Model.
+From Precond Require Import Base.PyLib Base.QMat Base.PyFloat C06.Records C06.Ref C06.BlockProofs C02.Records C02.Ref C02.Model.
 From Coq Require Import QArith Lqa Lia.
 Open Scope Q_scope.
 
@@ -41,61 +41,79 @@ Theorem blend_is_switch (run : bool) (a b : Q) :
   let r := if run then 1 else 0 in r * a + (1 - r) * b == if run then a else b.
 Proof. destruct run; simpl; ring. Qed.
 
-(* ---------- ordering facts of _transform_grad ---------- *)
-Definition set_lr (c : cfg) (lr : Q) : cfg :=
-  mkcfg (c_beta1 c) (c_beta2 c) lr (c_wd c) (c_decoupled_wd c) (c_decoupled_lr c) (c_nesterov c)
-        (c_moving_avg c) (c_graft c) (c_diag_eps c) (c_start c) (c_stats_every c) (c_block c)
-        (c_merge c) (c_best_effort c) (c_ptype c) (c_expo_override c) (c_skip_rank_lt c)
-        (c_skip_dim_gt c).
+(* ---------- ordering facts of _transform_grad (the TRANSLATED function C02.Ref.transform_grad) ---------- *)
+Notation tg := transform_grad.
+
+(* the destructuring lets of the translated function are stuck on these three tests *)
+Ltac unstick g wd dwd :=
+  unfold transform_grad;
+  destruct ((g =? 2)%Z || (g =? 6)%Z); destruct ((g =? 3)%Z || (g =? 4)%Z);
+  destruct (negb (Qeq_bool wd (inject_Z 0)) && negb dwd).
 
 (* decoupled learning rate: the optimizer state does not depend on the learning rate at all *)
-Theorem state_independent_of_decoupled_lr c step skip param grad pg s lr1 lr2 :
-  c_decoupled_lr c = true ->
-  snd (transform (set_lr c lr1) step skip param grad pg s)
-  = snd (transform (set_lr c lr2) step skip param grad pg s).
-Proof. intro H. unfold transform, set_lr. cbn [c_decoupled_lr c_lr c_graft c_beta2 c_diag_eps c_wd
-  c_decoupled_wd c_moving_avg c_beta1 c_start c_nesterov]. rewrite H. reflexivity. Qed.
+Theorem state_independent_of_decoupled_lr :
+  forall g b1 b2 lr1 lr2 wd dwd nes mavg de st clip eps step skip param grad pg sd sdm sm,
+  snd (tg g b1 b2 lr1 wd dwd true nes mavg de st clip eps step skip param grad pg sd sdm sm)
+  = snd (tg g b1 b2 lr2 wd dwd true nes mavg de st clip eps step skip param grad pg sd sdm sm).
+Proof. intros. unstick g wd dwd; reflexivity. Qed.
 
-(* ... and the update is the lr-free direction scaled by -lr *)
-Theorem update_linear_in_decoupled_lr c step skip param grad pg s lr :
-  c_decoupled_lr c = true ->
-  exists nest, fst (transform (set_lr c lr) step skip param grad pg s) = vscale (- lr) nest /\
-               fst (transform (set_lr c 1) step skip param grad pg s) = vscale (- (1)) nest.
-Proof.
-  intro H. unfold transform, set_lr. cbn [c_decoupled_lr c_lr c_graft c_beta2 c_diag_eps c_wd
-  c_decoupled_wd c_moving_avg c_beta1 c_start c_nesterov]. rewrite H.
-  eexists. split; reflexivity.
-Qed.
-
-(* warm-up: before the start step the update does not depend on the preconditioned gradient *)
-Theorem warmup_ignores_preconditioner c step skip param grad pg1 pg2 s :
-  (step < c_start c)%Z ->
-  fst (transform c step skip param grad pg1 s) = fst (transform c step skip param grad pg2 s).
-Proof.
-  intro H. unfold transform. replace (c_start c <=? step)%Z with false by (symmetry; apply Z.leb_gt; exact H).
-  reflexivity.
-Qed.
+(* ... and the update is an lr-free direction scaled by -lr *)
+Theorem update_linear_in_decoupled_lr :
+  forall g b1 b2 lr wd dwd nes mavg de st clip eps step skip param grad pg sd sdm sm,
+  exists nest,
+    fst (tg g b1 b2 lr wd dwd true nes mavg de st clip eps step skip param grad pg sd sdm sm)
+      = sv_mul (Qmult (Qopp (1 # 1)) lr) nest /\
+    fst (tg g b1 b2 (1 # 1) wd dwd true nes mavg de st clip eps step skip param grad pg sd sdm sm)
+      = sv_mul (Qmult (Qopp (1 # 1)) (1 # 1)) nest.
+Proof. intros. unstick g wd dwd; (eexists; split; reflexivity). Qed.
 
 (* parameters excluded from preconditioning get the grafting update whatever the preconditioners *)
-Theorem skipped_ignores_preconditioner c step param grad pg1 pg2 s :
-  transform c step true param grad pg1 s = transform c step true param grad pg2 s.
-Proof. reflexivity. Qed.
+Theorem skipped_ignores_preconditioner :
+  forall g b1 b2 lr wd dwd dlr nes mavg de st clip eps step param grad pg1 pg2 sd sdm sm,
+  tg g b1 b2 lr wd dwd dlr nes mavg de st clip eps step true param grad pg1 sd sdm sm
+  = tg g b1 b2 lr wd dwd dlr nes mavg de st clip eps step true param grad pg2 sd sdm sm.
+Proof. intros. unstick g wd dwd; reflexivity. Qed.
 
 (* decoupled weight decay stays outside the momentum: the new momenta and diagonal statistics do
    not depend on the parameter values *)
-Theorem decoupled_wd_outside_momentum c step skip param1 param2 grad pg s :
-  c_decoupled_wd c = true ->
-  snd (transform c step skip param1 grad pg s) = snd (transform c step skip param2 grad pg s).
+Theorem decoupled_wd_outside_momentum :
+  forall g b1 b2 lr wd dlr nes mavg de st clip eps step skip param1 param2 grad pg sd sdm sm,
+  snd (tg g b1 b2 lr wd true dlr nes mavg de st clip eps step skip param1 grad pg sd sdm sm)
+  = snd (tg g b1 b2 lr wd true dlr nes mavg de st clip eps step skip param2 grad pg sd sdm sm).
 Proof.
-  intro H. unfold transform. rewrite H. rewrite andb_false_r. reflexivity.
+  intros. unfold transform_grad.
+  destruct ((g =? 2)%Z || (g =? 6)%Z); destruct ((g =? 3)%Z || (g =? 4)%Z);
+  destruct (negb (Qeq_bool wd (inject_Z 0))); reflexivity.
 Qed.
 
 (* zero weight decay: the parameter values are irrelevant altogether *)
-Theorem no_wd_ignores_params c step skip param1 param2 grad pg s :
-  c_wd c == 0 ->
-  transform c step skip param1 grad pg s = transform c step skip param2 grad pg s.
+Theorem no_wd_ignores_params :
+  forall g b1 b2 lr wd dwd dlr nes mavg de st clip eps step skip param1 param2 grad pg sd sdm sm,
+  Qeq_bool wd (inject_Z 0) = true ->
+  tg g b1 b2 lr wd dwd dlr nes mavg de st clip eps step skip param1 grad pg sd sdm sm
+  = tg g b1 b2 lr wd dwd dlr nes mavg de st clip eps step skip param2 grad pg sd sdm sm.
 Proof.
-  intro H. unfold transform. apply Qeq_bool_iff in H. rewrite H. reflexivity.
+  intros. unfold transform_grad. rewrite H.
+  destruct ((g =? 2)%Z || (g =? 6)%Z); destruct ((g =? 3)%Z || (g =? 4)%Z); reflexivity.
+Qed.
+
+(* the arithmetic warm-up blend  run*a + (1-run)*b  on vectors is a switch (exact arithmetic) *)
+Definition veq (x y : vec) : Prop := Forall2 Qeq x y.
+
+Lemma vblend_before_start : forall (a b : vec), length a = length b ->
+  veq (vv_add (sv_mul (b2q false) a) (sv_mul (Qminus (1 # 1) (b2q false)) b)) b.
+Proof.
+  unfold veq, vv_add, vmap2, sv_mul, b2q.
+  induction a as [|x a IH]; intros [|y b] H; simpl in *; try discriminate; [constructor|].
+  constructor; [ring | apply IH; lia].
+Qed.
+
+Lemma vblend_from_start : forall (a b : vec), length a = length b ->
+  veq (vv_add (sv_mul (b2q true) a) (sv_mul (Qminus (1 # 1) (b2q true)) b)) a.
+Proof.
+  unfold veq, vv_add, vmap2, sv_mul, b2q.
+  induction a as [|x a IH]; intros [|y b] H; simpl in *; try discriminate; [constructor|].
+  constructor; [ring | apply IH; lia].
 Qed.
 
 (* exponent: twice the number of preconditioned axes unless overridden *)
